@@ -588,9 +588,34 @@ func Guard(f func()) (panicked bool, val any, stack string) {
 			if he, ok := e.(HarnessError); ok {
 				panic(he)
 			}
-			panicked, val, stack = true, e, string(debug.Stack())
+			panicked, val, stack = true, e, shortStack(string(debug.Stack()))
 		}
 	}()
 	f()
 	return
+}
+
+// shortStack keeps the frames between the panic and the harness.
+func shortStack(s string) string {
+	lines := strings.Split(s, "\n")
+	var out []string
+	seenPanic := false
+	for i := 0; i+1 < len(lines); i++ {
+		if strings.HasPrefix(lines[i], "panic(") {
+			seenPanic = true
+			out = out[:0]
+			i++
+			continue
+		}
+		if seenPanic {
+			if strings.HasPrefix(lines[i], "verifsim/") {
+				break
+			}
+			out = append(out, lines[i])
+		}
+	}
+	if len(out) > 24 {
+		out = out[:24]
+	}
+	return strings.Join(out, "\n")
 }
